@@ -5,7 +5,7 @@ CONSTANTS
   Horizon = 0
   MaxNow = 0
   Sched = "any"
-  Weaken = "ctlNoDecidedCheck"
+  Weakens = {"ctlNoDecidedCheck"}
   Parts = {"ctl"}
   Heights = {0, 1, 2}
   MaxCRound = 3
